@@ -40,6 +40,7 @@ type scheme struct {
 	cmp     func(a, b item) int                 // real comparison (both ok)
 	class   func(law string, t [3]item) string  // known-finding class of a failed law, or ""
 	spec    func(a, b item) (int, bool)         // the scheme's order stated independently of the code's normal form, where applicable
+	proj    func(a item) claircore.Version      // the projection onto the generic version used for range filtering, if Compare must agree with it
 }
 
 var schemes = []*scheme{
@@ -55,6 +56,7 @@ var schemes = []*scheme{
 			return x.Compare(&y)
 		},
 		spec: func(a, b item) (int, bool) { return pepSpecCmp(a.val.(pepV).v, b.val.(pepV).v) },
+		proj: func(a item) claircore.Version { v := a.val.(pepV).v; return v.Version() },
 	},
 	{
 		name: "gem", parseOp: "gem", cmpOp: "gemcmp",
@@ -154,6 +156,37 @@ func triple(r *hx.Run, sc *scheme, strs [3]string) {
 						r.Fail("", fmt.Sprintf("%s order %s %s compare=%d, the scheme's rules say %d", sc.name, q(strs[i]), q(strs[j]), m[i][j], want))
 					}
 				}
+			}
+		}
+	}
+	if sc.proj != nil && allok {
+		// the projection never inverts the scheme's own order, and a range over
+		// projected bounds contains exactly the versions between the bounds
+		var pv [3]claircore.Version
+		for i := range pv {
+			pv[i] = sc.proj(t[i])
+		}
+		for i := 0; i < 3; i++ {
+			for j := 0; j < 3; j++ {
+				if i == j || m[i][j] == 99 {
+					continue
+				}
+				pc := pv[i].Compare(&pv[j])
+				r.Count(fmt.Sprintf("%s:proj:cmp=%d,proj=%d", sc.name, m[i][j], pc))
+				if m[i][j] != 0 && pc == -m[i][j] {
+					r.Fail("", fmt.Sprintf("%s projection-inverts %s %s compare=%d projections=%v,%v", sc.name, q(strs[i]), q(strs[j]), m[i][j], pv[i].V, pv[j].V))
+				}
+			}
+		}
+		for _, p := range [][3]int{{0, 1, 2}, {0, 2, 1}, {1, 0, 2}, {1, 2, 0}, {2, 0, 1}, {2, 1, 0}} {
+			lo, hi, v := p[0], p[1], p[2]
+			if m[lo][v] == 99 || m[v][hi] == 99 {
+				continue
+			}
+			rg := claircore.Range{Lower: pv[lo], Upper: pv[hi]}
+			got, want := rg.Contains(&pv[v]), m[lo][v] <= 0 && m[v][hi] < 0
+			if got != want {
+				r.Fail("", fmt.Sprintf("%s projected-range-membership lower=%s upper=%s v=%s contains=%v, Compare says %v", sc.name, q(strs[lo]), q(strs[hi]), q(strs[v]), got, want))
 			}
 		}
 	}
